@@ -71,6 +71,8 @@ def generate_ops(rng, cfg, spec, tier) -> list[dict]:
         if r < 0.22:
             nxt = rng.choice(["F0", "F1", "F1", "F2"] + (["F3", "F3"] if "F3" in cfg["fits"] else []))
             ops.append({"op": "fit", "fit": nxt})
+            if spec.family == "single" and spec.has_transform and rng.random() < 0.15:
+                ops[-1]["via"] = "fit_transform"     # fit_transform(X) is a fit like any other; it returns transform(X)
             cur = nxt
             has_rot = False
             has_boot = False
@@ -315,9 +317,17 @@ def execute(cfg: dict, *, stop_at_first=True, trace=False) -> RunResult:
             if kind == "fit":
                 if st["m_fit"] is not None or counts["failed_fits"]:
                     counts["refits"] += 1
-                out = oracle.capture(models.fit_model, spec, m, cfg["fits"][op["fit"]], env)
+                out = oracle.capture(models.fit_model, spec, m, cfg["fits"][op["fit"]], env, op.get("via"))
                 rm, renv, rout = refs.model(op["fit"], False)
                 res.log.append(f"  fit {op['fit']} -> {out.kind()} ref {rout.kind()}")
+                if op.get("via") == "fit_transform" and out.ok and rout.ok:
+                    counts["fit_transforms"] = counts.get("fit_transforms", 0) + 1
+                    tq = {"q": "transform", "X": cfg["fits"][op["fit"]]["X"]}
+                    got = oracle.capture(lambda: oracle.materialise(out.value))
+                    want = refs.answer(("m", op["fit"], False), rm, renv, tq)
+                    d = oracle.compare(got, want, TOL, path="fit_transform")
+                    if d:
+                        violate("H2" if counts["refits"] else "H1", core.symptom_of(d), "fit_transform(X) differs from a fresh model's transform(X): " + "; ".join(d[:3]), op)
                 st["r_valid"] = False
                 st["b_valid"] = False
                 if out.kind() != rout.kind():
@@ -531,7 +541,7 @@ def _nonconv(o) -> bool:
 def _opk(op):
     k = op["op"]
     if k == "fit":
-        return f"fit:{op['fit']}"
+        return f"fit:{op['fit']}" + ("/ft" if op.get("via") else "")
     if k == "query":
         return f"q{op['target']}:{_qname(op['q'])}" + ("!" if op.get("bad") else "")
     if k in ("compute", "serialize"):
